@@ -110,3 +110,12 @@ Definition tree_macro (dbg : bool) (root : rootform) (nodes : list lit) : M (nid
       s <- exec_actions dbg acts (mkMState r None log0 new0) ;;
       ret (r, m_log s, m_new s)
   end.
+
+(* the whole expansion including the order in which the macro's own arguments are evaluated:
+   `let __arena = #arena;` first, then `#root_node`, then the actions.  [amark] is the token logged
+   by evaluating the arena expression, [rmark] the one logged by evaluating a NodeId root expression
+   (a value root logs its own payload token). *)
+Definition tree_macro_full (dbg : bool) (amark : N) (rmark : N) (root : rootform) (nodes : list lit)
+  : M (nid * list N * list nid) :=
+  '(r, log, new) <- tree_macro dbg root nodes ;;
+  ret (r, amark :: (match root with RootId _ => [rmark] | RootValue _ => [] end) ++ log, new).
